@@ -89,7 +89,7 @@ func init() {
 	)
 	selftests["C06"] = []variant{
 		{Name: "truncate-shares-source", File: utils, Find: "\t\t\tdst.SetSlice(sl.Make(0, end-start).Append(sl.Slice(start-offset, end-offset)))\n", Replace: "\t\t\tdst.SetSlice(sl.Slice(start-offset, end-offset))\n", Rule: "fresh/freshdst", Key: "sequtils.Truncate/dst.SetSlice#2"},
-		{Name: "compose-segments-alias-source", File: utils, Find: "\t\tt[i] = sl.Make(l, l)\n\t\tt[i].Copy(sl.Slice(max(f.Start()-offset, 0), min(f.End()-offset, pLen)))\n", Replace: "\t\tt[i] = sl.Slice(max(f.Start()-offset, 0), min(f.End()-offset, pLen))\n", Rule: "fresh/freshdst", Key: "sequtils.Compose/r.SetSlice"},
+		{Name: "compose-segments-alias-source", File: utils, Find: "\t\tt[i] = sl.Make(l, l)\n\t\tif l > 0 {\n\t\t\tt[i].Copy(sl.Slice(max(f.Start()-offset, 0), min(f.End()-offset, pLen)))\n\t\t}\n", Replace: "\t\tt[i] = sl.Slice(max(f.Start()-offset, 0), max(min(f.End()-offset, pLen), max(f.Start()-offset, 0)))\n", Rule: "fresh/freshdst", Key: "sequtils.Compose/r.SetSlice"},
 		{Name: "stitch-single-feature-shortcut-aliases", File: utils, Find: "\tdst.SetSlice(t)\n\tif dst, ok := dst.(seq.ConformationSetter); ok {\n\t\tdst.SetConformation(feat.Linear)\n\t}\n\tdst.SetOffset(0)\n\n\treturn nil\n}\n\ntype SliceReverser interface {", Replace: "\tif len(fsp) == 1 {\n\t\tdst.SetSlice(sl.Slice(max(fsp[0].s-offset, 0), min(fsp[0].e-offset, pLen)))\n\t} else {\n\t\tdst.SetSlice(t)\n\t}\n\tif dst, ok := dst.(seq.ConformationSetter); ok {\n\t\tdst.SetConformation(feat.Linear)\n\t}\n\tdst.SetOffset(0)\n\n\treturn nil\n}\n\ntype SliceReverser interface {", Rule: "fresh/freshdst", Key: "sequtils.Stitch/dst.SetSlice"},
 		{Name: "join-result-aliases-source", File: utils, Find: "\tt := dst.Slice().Make(srcLen, srcLen+dstSl.Len())\n\tt.Copy(srcSl)\n\to.SetSlice(t.Append(dstSl))\n", Replace: "\to.SetSlice(srcSl.Append(dstSl))\n", Rule: "fresh/freshdst", Key: "sequtils.Join/o.SetSlice"},
 		{Name: "compose-reverse-once", File: utils, Find: "\t\t\t\tr.SetSlice(ts)\n\t\t\t\tif _, ok := src.Alphabet().(alphabet.Complementor); ok {\n\t\t\t\t\tr.RevComp()\n\t\t\t\t} else {\n\t\t\t\t\tr.Reverse()\n\t\t\t\t}\n", Replace: "\t\t\t\tif r.Slice().Len() == 0 {\n\t\t\t\t\tr.SetSlice(ts)\n\t\t\t\t\tif _, ok := src.Alphabet().(alphabet.Complementor); ok {\n\t\t\t\t\t\tr.RevComp()\n\t\t\t\t\t} else {\n\t\t\t\t\t\tr.Reverse()\n\t\t\t\t\t}\n\t\t\t\t}\n", Rule: "mustpass", Key: "sequtils.Compose/append(r.Slice())"},
